@@ -85,7 +85,8 @@ def parseHeight (L : Lib) (s : Str) : G (Nat × Nat) :=
       | none => .err "invalid-height"
       | some h => .ok (r, h)
 
-/-- `clienttypes.ParseChainID`: note the explicit `panic` when the last segment does not parse -/
+/-- `clienttypes.ParseChainID` (after fix 011a55d: a last segment that does not fit in a uint64 is
+    "not a revision number", 0 is returned; before, the function called `panic`) -/
 def parseChainID (L : Lib) (chainID : Str) : G Nat :=
   if !L.isRevisionFormat chainID then .ok 0
   else do
@@ -93,7 +94,7 @@ def parseChainID (L : Lib) (chainID : Str) : G Nat :=
     let last ← lastIndex splitStr
     let seg ← G.index splitStr last
     match L.parseUint seg with
-    | none => G.goPanic "regex allowed non-number value as last split element for chainID"
+    | none => .ok 0
     | some n => .ok n
 
 def setAtList {α : Type} : List α → Nat → α → List α
